@@ -2,7 +2,7 @@
 From Coq Require Import String ZArith List Bool.
 From XV Require Import Base.Label Base.LSet Base.ODict Base.Attr Base.Outcome Model.Hypergraph
   Model.DiHypergraph Model.SimplicialComplex
-  Proofs.HgViews Proofs.HgInv Proofs.HgInvOps Proofs.HgStep Proofs.DiInv Proofs.ScInv.
+  Proofs.HgViews Proofs.HgInv Proofs.HgInvOps Proofs.HgStep Proofs.DiInv Proofs.ScInv Model.PySem Gen.UidCounter Proofs.UidSource.
 Import ListNotations.
 Open Scope Z_scope.
 
@@ -61,3 +61,17 @@ Example C04_nonvacuous :
   keys (h_edge s) = [LInt 0; LInt 5; LInt 3; LInt 6; LInt 7] /\ h_uid s = 8.
 Proof. vm_compute. split; reflexivity. Qed.
 Print Assumptions C04_nonvacuous.
+
+(* THE SOURCE TIE for the counter: Gen/UidCounter.v is regenerated on every run from
+   xgi/utils/utilities.py::update_uid_counter (harness/translate_uid.py, fail-closed); the model's bump_uid, about
+   which all the theorems above speak, computes exactly the function the source defines, and touches nothing else *)
+Theorem C04_source_counter_is_model : forall idx s, idx <> LNone ->
+  h_uid (bump_uid idx s) = src_uid idx (h_uid s).
+Proof. exact bump_uid_is_source. Qed.
+Print Assumptions C04_source_counter_is_model.
+
+Theorem C04_counter_update_frame : forall idx s,
+  h_node (bump_uid idx s) = h_node s /\ h_edge (bump_uid idx s) = h_edge s /\
+  h_nattr (bump_uid idx s) = h_nattr s /\ h_eattr (bump_uid idx s) = h_eattr s /\ h_net (bump_uid idx s) = h_net s.
+Proof. exact bump_uid_frame. Qed.
+Print Assumptions C04_counter_update_frame.
